@@ -20,6 +20,7 @@ RULE = (
     "(10 (T,p) over 2 SIDs x 2 L0 values); protect for SD1/SD2 with/without naming the root key} x 4 DC policies {authorised+exact position, the same with the L2 key omitted at L2'=31, authorised+later covering "
     "envelope, not authorised (public key only, depth 3)}; the live KeyCache is shared along a history (prefix sharing by deep copy, cross-checked against replay from scratch). "
     "mixed part: histories of length <=3 over 17 operations {load; 4 operations on one triple x {sync, async} x {caller is a group member, caller is not (public key only)}} on one shared cache. "
+    "thread part: 6 pairs of sync calls from two OS threads on one shared cache under a controlled scheduler (scheduling point = function entry (quick) / every source line (thorough) of dpapi_ng), every schedule with <= 1 preemption (thorough: one pair with <= 2), then every probe. "
     "concurrent part: 2 (quick) / 3 (thorough) async calls on the same triple sharing one cache on the virtual loop; choice point = which task starts / which pending connection "
     "gets its next reply; deviation bound 2 / 3 from run-to-completion order; every execution is continued by each sequential probe operation. Oracle: (1) every call returns within the "
     "step budget with the known plaintext / a blob the reference decryptor opens at key id = now, exceptions only where a fresh cache gives the same; (2) reference model covered[T]=max "
@@ -370,8 +371,81 @@ def concurrent_shard(w, acc, policy: str, ops, bound: int, preload: bool) -> Non
     acc.sample({"concurrent_ops": [list(o) for o in ops], "policy": policy, "schedules_explored": stats["executions"], "deviation_bound": bound})
 
 
+THREAD_PARTS = 4
+THREAD_PAIRS = [
+    [["unprot", "T1", [3, 5]], ["unprot", "T1", [10, 12]]],
+    [["unprot", "T1", [10, 12]], ["unprot", "T1", [3, 5]]],
+    [["load"], ["unprot", "T1", [3, 5]]],
+    [["prot", "T1", True], ["unprot", "T1", [3, 5]]],
+    [["prot", "T1", True], ["prot", "T1", True]],
+    [["unprot", "T3", [3, 5]], ["load"]],
+]
+
+
+def thread_shard(w, acc, policy: str, ops, bound: int, coarse: bool, part: int, parts: int, only_choices=None, probe=None) -> None:
+    """two OS threads calling the SYNC API at once on one shared KeyCache, under the controlled scheduler of mc/threads.py"""
+    import dpapi_ng
+
+    from mc import threads
+
+    probes = [op for op in OPS if op[0] != "load" and (op[1] == (ops[0][1] if len(ops[0]) > 1 else ops[1][1]) or op[0] == "prot")]
+    state: t.Dict[str, t.Any] = {}
+
+    def factory():
+        cache = dpapi_ng.KeyCache()
+        state["dc"] = dc = mk_dc(w, policy)
+        state["net"] = transport.network(dc)
+        state["net"].__enter__()
+        return [(lambda op=op: call_sync(w, cache, op)) for op in ops], cache
+
+    def on(ch, s, res, cache) -> None:
+        state["net"].__exit__(None, None, None)
+        dc = state["dc"]
+        case = ["threads", policy, [list(o) for o in ops], coarse, [[i, c] for i, c in enumerate(ch.choices) if c]]
+        acc.ev()
+        acc.states += 1
+        acc.transitions += len(ch.trace)
+        acc.set_add("thread_switch_points", tuple(s.switches))
+        acc.nt(("thr", policy, tuple(map(repr, ops)), tuple(s.switches)))
+        m0 = new_model()
+        for i, (st, v) in enumerate(res):
+            stt, vv = ("ok", v) if st == "ok" else ("exc", (type(v).__name__, str(v)[:140]))
+            if st == "exc" and isinstance(v, (transport.BlocksForever, transport.Spin, budget.BudgetExceeded)):
+                stt, vv = "blocks", repr(v)
+            check_result(w, m0, ops[i], policy, stt, vv, refdc.DC([w["rk"]]), case + [f"task{i}"], acc, tag="threads.")
+        m = model_update(w, m0, ("threads",), dc)
+        if any(o[0] == "load" for o in ops):
+            m["root"] = True
+        for pr in probes:
+            if probe is not None and list(pr) != list(probe):
+                continue
+            st, v, pdc = run_op(w, copy.deepcopy(cache), pr, policy)
+            check_result(w, m, pr, policy, st, v, pdc, case + [["probe"] + list(pr)], acc, tag="threads.probe.")
+            acc.transitions += 1
+
+    with seams.clock(NOW_FT), secctx.scripted_client(_ctx):
+        if only_choices is not None:
+            from mc import explorer as ex
+
+            ch = ex.Chooser(only_choices)
+            bodies, cache = factory()
+            s = threads.Sched(ch, coarse)
+            on(ch, s, s.run(bodies), cache)
+            return
+        stt = threads.explore(factory, bound, on, coarse=coarse, root_filter=lambda i: i % parts == part)
+    acc.stat_add("thread_schedules", stt["executions"])
+    acc.stat_max("thread_choice_points_per_schedule", stt["max_depth"])
+    acc.sample({"threads": [list(o) for o in ops], "policy": policy, "preemption_bound": bound, "granularity": "function entry" if coarse else "source line", "schedules": stt["executions"]})
+
+
 def shards(tier: str, seed: int):
     out = []
+    for pr in THREAD_PAIRS:
+        for part in range(THREAD_PARTS):
+            out.append(["threads", "exact", pr, 1, tier == "quick", part, THREAD_PARTS])
+    if tier == "thorough":
+        for part in range(16):
+            out.append(["threads", "exact", THREAD_PAIRS[0], 2, True, part, 16])
     for pol in POLICIES:
         depth = 3 if tier == "quick" or pol in ("unauth", "noL2") else 4
         for i in range(len(OPS)):
@@ -424,6 +498,9 @@ def run_shard(shard, tier, seed, acc) -> None:
         acc.ev(counter[0])
         acc.nt_counted(counter[0])
         acc.sample({"policy": pol if shard[0] == "seq" else "per operation", "history": [list(op), list(ops[(first + 3) % len(ops)]), list(ops[(first + 7) % len(ops)])]})
+    elif shard[0] == "threads":
+        _, pol, ops, bound, coarse, part, parts = shard
+        thread_shard(w, acc, pol, [_norm(o) for o in ops], bound, coarse, part, parts)
     else:
         _, pol, ops, bound = shard
         concurrent_shard(w, acc, pol, [_norm(o) for o in ops], bound, False)
@@ -445,6 +522,13 @@ def replay(case, seed, acc) -> None:
             if i == len(hist) - 1:
                 check_result(w, m, opn, pol, status, value, dc, case, acc)
             m = model_update(w, m, opn, dc)
+    elif case[0] == "threads":
+        _, pol, ops, coarse, sparse = case[:5]
+        dense = [0] * (max([i for i, _ in sparse] or [-1]) + 1)
+        for i, c in sparse:
+            dense[i] = c
+        probe = case[5][1:] if len(case) > 5 and isinstance(case[5], list) else None
+        thread_shard(w, acc, pol, [_norm(o) for o in ops], 0, coarse, 0, 1, only_choices=dense, probe=[_x for _x in _norm(probe)] if probe else None)
     else:
         _, pol, ops, choices = case[:4]
         ops = [_norm(o) for o in ops]
